@@ -8,6 +8,7 @@ package main
 import (
 	"fmt"
 	"math/rand"
+	"sort"
 	"strconv"
 	"strings"
 
@@ -49,6 +50,50 @@ func srcDo(op []string) string {
 		case "ke gate":
 			cs, cr, rd := p2pke.VerifGates(op[2] == "1", uint8(u(3)))
 			return b2s(cs) + b2s(cr) + b2s(rd)
+		case "kad iter":
+			// kad iter <key> <n> <initial refs> <table>; a node ref is idprefix/info (the id is padded to 32 bytes);
+			// table: id=ref;ref:cont|... ; the callback answers from the table and records whom it was called with
+			ref := func(t string) kademlia.NodeInfo {
+				var ni kademlia.NodeInfo
+				parts := strings.SplitN(t, "/", 2)
+				copy(ni.ID[:], hx.UnHex(parts[0]))
+				if b := hx.UnHex(parts[1]); len(b) > 0 {
+					ni.Info = b
+				}
+				return ni
+			}
+			refs := func(t string) (out []kademlia.NodeInfo) {
+				if t == "-" {
+					return nil
+				}
+				for _, x := range strings.Split(t, ";") {
+					out = append(out, ref(x))
+				}
+				return out
+			}
+			type ans struct {
+				nodes []kademlia.NodeInfo
+				cont  bool
+			}
+			table := map[p2p.PeerID]ans{}
+			if op[5] != "-" {
+				for _, ent := range strings.Split(op[5], "|") {
+					kv := strings.SplitN(ent, "=", 2)
+					vc := strings.SplitN(kv[1], ":", 2)
+					var id p2p.PeerID
+					copy(id[:], hx.UnHex(kv[0]))
+					table[id] = ans{refs(vc[0]), vc[1] == "1"}
+				}
+			}
+			var trace []string
+			kademlia.VerifDhtIterate(refs(op[4]), a(2), n(3), func(ni kademlia.NodeInfo) ([]kademlia.NodeInfo, bool) {
+				trace = append(trace, hx.Hex(ni.ID[:4])+"/"+hx.Hex(ni.Info))
+				if an, ok := table[ni.ID]; ok {
+					return append([]kademlia.NodeInfo{}, an.nodes...), an.cont
+				}
+				return nil, true
+			})
+			return "t=" + strings.Join(trace, ",")
 		case "kad lz":
 			return strconv.Itoa(kademlia.LeadingZeros(a(2)))
 		case "kad xor":
@@ -210,6 +255,94 @@ func srcStream(r *rand.Rand, n int, tier string, o *hx.Out) {
 			emit(fmt.Sprintf("kad xor %s %s %s", hx.Hex(x), hx.Hex(a), hx.Hex(b)))
 			z := append(make([]byte, r.Intn(4)), x...)
 			emit("kad lz " + hx.Hex(z))
+		case 14, 15:
+			// dhtIterate against a scripted network: ids share prefixes with the key; duplicates (the same id twice, with
+			// different info) only in small instances, where slices.SortFunc is an insertion sort
+			key := hx.Bytes(r, hx.Pick(r, 32, 32, 32, 4, 1, 0, 33))
+			dups := r.Intn(4) == 0
+			pool := 3 + r.Intn(28)
+			if dups {
+				pool = 2 + r.Intn(5)
+			}
+			var ids []string
+			for k := 0; k < pool; k++ {
+				id := make([]byte, 4)
+				copy(id, key)
+				switch r.Intn(4) {
+				case 0:
+					id[r.Intn(4)] ^= byte(1 << uint(r.Intn(8)))
+				case 1:
+					id[3] = byte(r.Intn(256))
+				case 2:
+					copy(id, hx.Bytes(r, 4))
+				case 3:
+					id[2], id[3] = byte(r.Intn(4)), byte(r.Intn(256))
+				}
+				if h := hx.Hex(id); !strings.Contains(strings.Join(ids, " "), h) {
+					ids = append(ids, h)
+				}
+			}
+			// far ids first: an iteration that starts far away and is sent nearer has many rounds
+			sort.Slice(ids, func(i, j int) bool {
+				a, b := make([]byte, 32), make([]byte, 32)
+				copy(a, hx.UnHex(ids[i]))
+				copy(b, hx.UnHex(ids[j]))
+				return kademlia.DistanceLt(key, b, a)
+			})
+			mkRefAt := func(k int) string {
+				info := "x"
+				if dups || r.Intn(3) == 0 {
+					info = hx.Hex(hx.Bytes(r, 1))
+				}
+				return ids[k] + "/" + info
+			}
+			mkRefs := func(max, from int) string {
+				var out []string
+				seen := map[string]bool{}
+				for k := r.Intn(max + 1); k > 0; k-- {
+					at := r.Intn(len(ids))
+					if r.Intn(3) > 0 && from < len(ids) {
+						at = from + r.Intn(len(ids)-from) // nearer than the node that answers
+					}
+					x := mkRefAt(at)
+					if !dups && seen[x[:9]] {
+						continue
+					}
+					seen[x[:9]] = true
+					out = append(out, x)
+				}
+				if len(out) == 0 {
+					return "-"
+				}
+				return strings.Join(out, ";")
+			}
+			var tab []string
+			for k, id := range ids {
+				if r.Intn(8) > 0 {
+					tab = append(tab, fmt.Sprintf("%s=%s:%d", id, mkRefs(hx.Pick(r, 2, 5, 5, 9), k+1), hx.Pick(r, 1, 1, 1, 1, 1, 1, 1, 0)))
+				}
+			}
+			tb := "-"
+			if len(tab) > 0 {
+				tb = strings.Join(tab, "|")
+			}
+			nn := hx.Pick(r, 1, 2, 3, 6, 6)
+			if !dups {
+				nn = hx.Pick(r, 1, 2, 3, 3, 6, 20, 1000, 0, -1)
+			}
+			init := "-"
+			if r.Intn(10) > 0 {
+				var ini []string
+				for k := 1 + r.Intn(4); k > 0; k-- {
+					ini = append(ini, mkRefAt(r.Intn(1+len(ids)/2)))
+				}
+				if dups || len(ini) == 1 || ini[0][:9] != ini[len(ini)-1][:9] {
+					init = strings.Join(ini, ";")
+				} else {
+					init = ini[0]
+				}
+			}
+			emit(fmt.Sprintf("kad iter %s %d %s %s", hx.Hex(key), nn, init, tb))
 		case 3:
 			x, p, _ := srcKeys(r)
 			nb := hx.Pick(r, 0, 1, 7, 8, 9, len(p)*8-1, len(p)*8, len(p)*8+1, len(x)*8, len(x)*8+1, r.Intn(64))
